@@ -278,6 +278,34 @@ func c11LibWorker(in, out string) {
 				}()
 			}
 			wg.Wait()
+			// first-contact storms: many fresh clients, each hit by 16 requests released at the
+			// same instant while the limiter has no entry for that client yet
+			sn := []int{1, 1, 2, 3}[rng.Intn(4)]
+			smw := server.RateLimitMiddleware(server.RateLimiterConfig{RequestsPerMinute: sn, BurstSize: sn})
+			for c := 0; c < 60; c++ {
+				client := fmt.Sprintf("10.9.%d.%d:4000", c/250, c%250+1)
+				var sran, sadm atomic.Int64
+				var gate atomic.Bool
+				var swg sync.WaitGroup
+				for g := 0; g < 16; g++ {
+					swg.Add(1)
+					go func() {
+						defer swg.Done()
+						for !gate.Load() {
+						}
+						if st, _ := c11Serve(smw, &sran, c11Ev{Client: client}); st == 200 {
+							sadm.Add(1)
+						}
+					}()
+				}
+				gate.Store(true)
+				swg.Wait()
+				w.Count("first_contact_storms", 1)
+				if int(sadm.Load()) > sn || sran.Load() != sadm.Load() {
+					w.Violate("concurrent-first-contact-over-admitted:library", fmt.Sprintf("16 simultaneous first requests of one client with limit %d/min (burst %d): %d admitted, body ran %d times", sn, sn, sadm.Load(), sran.Load()), map[string]interface{}{"limit": sn, "client": client})
+					break
+				}
+			}
 			w.Count("concurrent_floods", 1)
 			w.Case(fmt.Sprintf("flood-%d-%d", i, n), true)
 			if int(admitted.Load()) > n || int(ran.Load()) != int(admitted.Load()) {
